@@ -1,8 +1,9 @@
 CONSTANTS
+  SeriesFirst = FALSE
   CommitSeqBeforeWrite = FALSE
   FreezeBeforeMetaFlush = FALSE
 SPECIFICATION TraceSpec
-INVARIANTS AckNotAhead NoLoss
+INVARIANTS SeriesIndexed AckNotAhead NoLoss
 CONSTRAINT HighWater
 POSTCONDITION TraceAccepted
 CHECK_DEADLOCK FALSE
